@@ -177,6 +177,22 @@ theorem good_succ (pn) (f : Nat) (ih : Good pn f) : Good pn (f + 1) := by
           simp only at h
           have hm : Mono wk w { w with execSpawn := w.execSpawn ++ [.legacy (.mk env .idle body)] } := mono_execSpawn wk w _
           exact ih.cont hm hfr' (hm.envOk he) h
+      | handoff x n e body =>
+        have hm0 := (mono_newLeaf wk w (some wk) (match sink with | .core => true | .cmd _ => false)).trans
+          (mono_sinkEffect wk _ sink ⟨⟨n, env.eval e⟩, .once (w.newLeaf (some wk) (match sink with | .core => true | .cmd _ => false)).1⟩)
+        cases sink with
+        | cmd c =>
+          simp only at h hm0
+          have hm := (hm0.trans (mono_newMeta wk _)).trans (mono_modCmd wk _ c fun cs => { cs with spawnQ := cs.spawnQ ++
+            [⟨((w.newLeaf (some wk) false).2.sinkEffect (.cmd c) ⟨⟨n, env.eval e⟩, .once (w.newLeaf (some wk) false).1⟩).newMeta.1,
+              .mk env (.req x (w.newLeaf (some wk) false).1) body⟩] })
+          exact ih.cont hm hfr' (hm.envOk he) h
+        | core =>
+          simp only at h hm0
+          have hm := hm0.trans (mono_execSpawn wk _ (((w.newLeaf (some wk) true).2.sinkEffect .core
+            ⟨⟨n, env.eval e⟩, .once (w.newLeaf (some wk) true).1⟩).execSpawn ++
+              [.legacy (.mk env (.req x (w.newLeaf (some wk) true).1) body)]))
+          exact ih.cont hm hfr' (hm.envOk he) h
       | await hd =>
         cases hh : env.handle hd with
         | none => simp only [hh] at h; exact ih.cont (Mono.refl wk w) hfr' he h
